@@ -562,7 +562,7 @@ Section Build.
     (* idx is a usize; usize::MAX marks "& consumed the rest" *)
     Definition let_vec_next (idx : Z) : M Z :=
       if (idx =? usize_max)%Z then fail EMsg None
-      else code_emit_value (CInt idx) ;; emit_native "%let-vec-pos_" ;; ret (idx + 1)%Z.
+      else code_emit_value (CInt idx) ;; emit_native "%let-vec-at" ;; ret (idx + 1)%Z.
 
     Fixpoint build_let_in (fuel : nat) : M unit :=
       match fuel with
